@@ -485,6 +485,12 @@ class BinTableNumpy(AbstractBinTable):
     def _transform_data_fromlists(data: List[List[bool]]) -> npt.NDArray[bool]:
         return np.array(data)
 
+    def _transform_data(self, data) -> Tuple[npt.NDArray[bool], int, Optional[int]]:
+        data, h, w = super(BinTableNumpy, self)._transform_data(data)
+        if h == 0:  # keep an ndarray for a table without rows, so that to_list/all/any/sum keep working
+            data = np.zeros((0, 0), dtype=bool)
+        return data, h, w
+
     def _get_subtable(self, row_slicer, column_slicer) -> 'BinTableNumpy':
         if column_slicer is None:
             return self.__class__(self.data[row_slicer])
